@@ -2,7 +2,7 @@
 import numpy as np
 import impl
 from gen import grid, data, unc
-from .common import arr, tolist
+from .common import arr, tolist, history_differs, confusable
 
 LEAN = "PystogVerif.Props.C13"
 ENTRIES = ["Transformer.apply_cropping", "Transformer.fourier_transform"]
@@ -89,6 +89,17 @@ def evaluate(case):
     pre = tr.fourier_transform(x[m], y[m], xo, xmin=lo, xmax=hi, dy_in=None if dy is None else dy[m], **kw)
     if not same(base, pre):
         fails.append("fourier_transform(xmin,xmax): differs from transforming the pre-deleted data with the same window")
+    # the same window on another grid with the same length and end points, served by the same Transformer just before
+    x2 = confusable(x)
+    if x2 is not None and len(x) <= 120:
+        wkw = dict(xmin=lo, xmax=hi, dy_in=dy, **kw)
+        prim = [("fourier_transform", (x2, y, xo), wkw), ("apply_cropping", (x2, y, lo, hi), dict(dy=dy))]
+        with np.errstate(all="ignore"):
+            if history_differs("Transformer", "fourier_transform", (x, y, xo), wkw, prim):
+                fails.append("fourier_transform(xmin,xmax): the result depends on windowed calls the same Transformer served before "
+                             "(a grid with the same length, end points and window)")
+            elif history_differs("Transformer", "apply_cropping", (x, y, lo, hi), dict(dy=dy), prim):
+                fails.append("apply_cropping: the result depends on calls the same Transformer served before")
     for bad in (case["pert"], np.nan, np.inf):
         y2 = y.copy()
         y2[~m] = bad
